@@ -119,6 +119,32 @@ func pUpdate(db, coll string, many bool, filter, update bson.D, upsert bool) c01
 	}}
 }
 
+func pUpdateByID(db, coll string, id interface{}, update bson.D, upsert bool) c01Pair {
+	return c01Pair{cUpdateByID(db, coll, id, update, upsert), func(m *refmodel.DB) string {
+		return mObsUpdate(m.Update(db, coll, bson.D{{Key: "_id", Value: id}}, update, nil, false, upsert, nil))
+	}}
+}
+
+func pUpdateAF(db, coll string, many bool, filter, update bson.D, af []bson.D) c01Pair {
+	return c01Pair{cUpdateAF(db, coll, many, filter, update, af), func(m *refmodel.DB) string {
+		return mObsUpdate(m.Update(db, coll, filter, update, nil, many, false, af))
+	}}
+}
+
+func pCreateMany(db, coll string, keys []bson.D, os []idxOpt) c01Pair {
+	return c01Pair{cCreateMany(db, coll, keys, os), func(m *refmodel.DB) string {
+		var names []string
+		for i := range keys {
+			name, err := m.CreateIndex(db, coll, refmodel.Index{Name: os[i].name, Key: keys[i], Unique: os[i].unique, Partial: os[i].partial, Expire: -1})
+			if err != nil {
+				return refmodel.ErrClass(err) + " names=" + strings.Join(names, ",")
+			}
+			names = append(names, name)
+		}
+		return "ok names=" + strings.Join(names, ",")
+	}}
+}
+
 func pReplace(db, coll string, filter, repl bson.D, upsert bool) c01Pair {
 	return c01Pair{cReplace(db, coll, filter, repl, upsert), func(m *refmodel.DB) string {
 		return mObsUpdate(m.Replace(db, coll, filter, repl, nil, upsert))
@@ -593,6 +619,10 @@ func c01Alphabet(full bool) []c01Pair {
 		pUpdate("d", "c", false, bD("a", i(8)), bD("$set", bD("b", "u")), true),
 		pUpdate("d", "c", false, bD("_id", i(1)), bD("$set", bD("_id", i(9))), false),
 		pUpdate("d", "c", true, bD(), bD("$inc", bD("b", i(1))), false),
+		pUpdateByID("d", "c", i(2), bD("$inc", bD("a", i(-1))), false),
+		pUpdateByID("d", "c", i(40), bD("$set", bD("a", i(1))), true),
+		pUpdateAF("d", "c", true, bD(), bD("$set", bD("a.$[x]", i(0))), []bson.D{bD("x", bD("$gte", i(2)))}),
+		pCreateMany("d", "c", []bson.D{bD("b", i(1)), bD("a", i(1))}, []idxOpt{{}, {unique: true}}),
 		pReplace("d", "c", bD("_id", i(2)), bD("a", i(7), "q", true), false),
 		pReplace("d", "c", bD("_id", i(6)), bD("a", i(6)), true),
 		pReplace("d", "c", bD("_id", i(1)), bD("_id", i(2), "a", i(0)), false),
